@@ -11,7 +11,8 @@ def main():
     fam = v.get("family", "win")
     import importlib
     mod = importlib.import_module({"win": "win"}.get(fam, fam))
-    rej = mod.replay_one(v["replay"])
+    import inspect
+    rej = mod.replay_one(v["replay"], prop) if "prop" in inspect.signature(mod.replay_one).parameters else mod.replay_one(v["replay"])
     for r in rej:
         print("REJECT", r)
     print("VIOLATION property=%s replay=%s" % (prop, path) if rej else "scenario accepted (not reproduced)")
